@@ -358,6 +358,9 @@ func asComplete(loc Location) Location {
 			v[i] = asComplete(u)
 		}
 		return v
+	case Complemented:
+		v.Location = asComplete(v.Location)
+		return v
 	default:
 		return v
 	}
